@@ -58,7 +58,7 @@ def AckP (base : Seq) (bad : Prop) (c : Tcb) (h : Hdr) : Prop :=
 theorem ackP_new {base : Seq} {bad : Prop} {c : Tcb} {h : Hdr} (hn : NewHdr c h)
     (hpos : c.state ≠ .SynSent → 1 ≤ off base c.rcv.nxt) : AckP base bad c h := by
   refine ⟨fun hf => ?_, fun hr => by rw [hn.1] at hr; cases hr⟩
-  obtain ⟨e, hs⟩ := hn.2.2 hf
+  obtain ⟨e, hs⟩ := hn.2.2.1 hf
   rw [top_of_ne hs, e]
   exact ⟨hpos hs, Nat.le_refl _⟩
 
